@@ -146,6 +146,11 @@ func run(c Case) (msg string, nontrivial bool) {
 		events = events[:0]
 		sess := fmt.Sprintf("s%d", op.S)
 		key := fmt.Sprintf("%s/%d", sess, op.ID)
+		if (op.Op == "ins" && op.Kind == "pubrec") || (op.Op == "ack" && op.Kind == "pubrel") {
+			// exchanges started by the peer (a stored PUBREC waiting for PUBREL) live in the peer's
+			// identifier space: the same number may be in use by an exchange started here
+			key = fmt.Sprintf("%s/in/%d", sess, op.ID)
+		}
 		switch op.Op {
 		case "ins":
 			stored, expect, valid := mkStored(op.Kind, op.ID)
